@@ -429,6 +429,18 @@ fn line_and_column(input: &[u8], offset: usize) -> (usize, usize) {
     (line, offset - line_start + 1)
 }
 
+/// verif-hooks: `line_and_column` (private) for arbitrary `(input, offset)`.
+#[cfg(feature = "verif-hooks")]
+pub fn verif_line_and_column(input: &[u8], offset: usize) -> (usize, usize) {
+    line_and_column(input, offset)
+}
+
+/// verif-hooks: `skip_ascii` (private).
+#[cfg(feature = "verif-hooks")]
+pub fn verif_skip_ascii(input: &[u8], pos: usize) -> usize {
+    skip_ascii(input, pos)
+}
+
 /// Check if a byte is a valid UTF-8 continuation byte (0x80-0xBF).
 #[inline(always)]
 fn is_continuation_byte(byte: u8) -> bool {
@@ -452,6 +464,12 @@ mod simd_x86;
 mod broadword;
 
 pub use self::broadword::validate_utf8_broadword;
+
+#[cfg(feature = "verif-hooks")]
+pub use self::broadword::verif_broadword_accepts;
+
+#[cfg(all(feature = "verif-hooks", target_arch = "x86_64", any(test, feature = "std")))]
+pub use self::simd_x86::verif_validate_utf8_avx2;
 
 /// Get the expected sequence length from a lead byte.
 /// Returns 0 for invalid lead bytes (continuation bytes or 0xF8+).
